@@ -144,6 +144,7 @@ structure FileSt where
   hdrMs : Nat          -- mvhd.DurationV0 (0 while the segment is open)
   parts : List PartSt
   trigger : Option Nat := none
+  torn : Nat := 0      -- bytes left behind by a part write that failed (write error, process continues)
 deriving Repr, DecidableEq
 
 structure St where
@@ -188,11 +189,11 @@ def segParts (sg : SegSt) : List PartSt :=
 /-- formatFMP4Segment.close: flush the current part, write the duration; a file exists iff a part was written -/
 def segClose (sg : SegSt) : Option FileSt :=
   if (segParts sg).isEmpty then none
-  else some ⟨sg.number, sg.startDTS, sg.startNTP, ((sg.endDTS - sg.startDTS) / 1000000) % u32, segParts sg, sg.trigger⟩
+  else some ⟨sg.number, sg.startDTS, sg.startNTP, ((sg.endDTS - sg.startDTS) / 1000000) % u32, segParts sg, sg.trigger, 0⟩
 
 /-- what is on disk for an open segment (crash at a write boundary): the flushed parts, header duration 0 -/
 def segCrash (sg : SegSt) : Option FileSt :=
-  if sg.flushed.isEmpty then none else some ⟨sg.number, sg.startDTS, sg.startNTP, 0, sg.flushed, sg.trigger⟩
+  if sg.flushed.isEmpty then none else some ⟨sg.number, sg.startDTS, sg.startNTP, 0, sg.flushed, sg.trigger, 0⟩
 
 def rateOf (c : Cfg) (t : Nat) : Nat := (c.tracks.getD t ⟨false, 1⟩).rate
 def isVideo (c : Cfg) (t : Nat) : Bool := (c.tracks.getD t ⟨false, 1⟩).video
@@ -305,6 +306,32 @@ def fileSync (c : Cfg) (f : FileSt) : Bool :=
   (List.range c.tracks.length).all fun tid =>
     !isVideo c tid || (match firstOf tid f.parts with | some w => !w.nonSync | none => true)
 
+/-- **write error on a part flush, the process continues**: the storage accepts `n` more bytes of the current segment
+file and then fails (n smaller than any part).  `step` is `write` or `gwrite`.  If this step flushes a part into the
+existing file (part switch, segment switch or drift close), the flush fails: `formatFMP4Segment.write` sets
+`curPart = nil` BEFORE looking at the error, so the failed part is dropped (never written again), the error stops the
+instance, `close` writes the duration and closes the file: header + the parts flushed before + `n` torn bytes. -/
+def writeFault (step : Cfg → St → In → St) (c : Cfg) (s : St) (x : In) (n : Nat) : St :=
+  match s.seg with
+  | none => step c s x
+  | some sg =>
+    if sg.flushed.isEmpty then step c s x else      -- the segment file does not exist yet: nothing is injected
+    let s' := step c s x
+    let fault (f : FileSt) : St :=
+      { s' with closed := true, seg := none,
+                files := s.files ++ [{ f with parts := sg.flushed, torn := n }] }
+    if s'.files.length > s.files.length then
+      match s'.files.getLast? with
+      | some f => if f.number == sg.number && f.parts.length > sg.flushed.length then fault f else s'
+      | none => s'
+    else
+      match s'.seg with
+      | some sg2 =>
+        if sg2.number == sg.number && sg2.flushed.length > sg.flushed.length then
+          fault ⟨sg2.number, sg2.startDTS, sg2.startNTP, ((sg2.endDTS - sg2.startDTS) / 1000000) % u32, sg.flushed, sg2.trigger, n⟩
+        else s'
+      | none => s'
+
 def run (c : Cfg) (s : St) : List In → St
   | [] => s
   | x :: r => run c (write c s x) r
@@ -341,6 +368,7 @@ def fmtPart (p : PartSt) : String :=
 
 def fmtFile (f : FileSt) : String :=
   s!"#{f.number} dts={f.startDTS} ntp={f.startNTP} hdr={f.hdrMs} [" ++ ";".intercalate (f.parts.map fmtPart) ++ "]"
+    ++ (if f.torn != 0 then s!" torn={f.torn}" else "")
 
 def fmtFiles (l : List FileSt) : String := if l.isEmpty then "none" else " ".intercalate (l.map fmtFile)
 
